@@ -168,3 +168,6 @@ def run(P, R, tier):
     for k in ("gmm:m_step", "factor_analysis:reduce_iadd"):
         s = own.sums[k]
         R.ok("OWN.O4", k, "in-place reducer: mutates element 0 of its list argument " + fmt_orgs(s.mutates), "every root that reaches it passes lists of fresh elements (decided by O1 on the roots)", nontrivial=False)
+
+
+EXPLANATION += ' Also: (OWN.iadd-alias) `a += b` never stores an array of b into a.'
